@@ -38,6 +38,18 @@ def def_src(stmt, gen):
             f"    event.fire('pv_call', gen={gen}, kw=kw)", f"    return {{'gen': {gen}}}"]
 
 
+async def collect_garbage(env):
+    """Deterministic stand-in for Python's cyclic garbage collector (automatic collection is switched off in this process):
+    three full collections after every operation, exactly what the Model's [gc] does.  Collection matters for the property:
+    a legacy function object that its context never recorded (D120) is finalised - and releases its services - only when
+    the collector finds it."""
+    import gc
+
+    for _ in range(3):
+        gc.collect()
+        await env.settle()
+
+
 class Life:
     def __init__(self, case):
         self.case = case
@@ -151,6 +163,7 @@ class Life:
         with patch.object(GlobalContext, "start", start_rec):
             async with PyscriptEnv(files=init_files, legacy=case["legacy"]) as env:
                 await env.settle()
+                await collect_garbage(env)
                 steps.append({"oracle": self.oracle(maps), "obs": await self.probe(env, case.get("init_data", {}))})
                 for op in case["ops"]:
                     kind = op["op"]
@@ -183,6 +196,7 @@ class Life:
                         info["oracle"] = self.oracle(maps)
                     else:
                         raise ValueError(kind)
+                    await collect_garbage(env)
                     info["obs"] = await self.probe(env, op.get("data", {}))
                     steps.append(info)
         return {"steps": steps}
@@ -347,6 +361,52 @@ def canon_seen(s):
     return {"data": sorted(data), "rr": s["rr"]}
 
 
+# ------------------------------------------------------------------------------------------------
+# overlapping calls of one service
+# ------------------------------------------------------------------------------------------------
+OV_SRC = '''
+@service("pvs.ov", supports_response=SR)
+def ov(a1=None, dur=None, **kw):
+    mine = a1 * 2 + 1
+    task.sleep(dur)
+    res = mine + a1
+    event.fire("pv_ov", a1=a1, res=res, tt=kw.get("trigger_type"))
+    return {"res": res, "a1": a1}
+'''
+
+
+async def run_overlap(case):
+    """calls = [{"a": int, "start": virtual second, "dur": seconds}]: every call is started at its time while earlier ones
+    are still suspended in task.sleep; -> per call what it returned and what the function instance saw"""
+    src = OV_SRC.replace("SR", repr(case["sr"]))
+    async with PyscriptEnv(files={"c0.py": src}, legacy=case["legacy"]) as env:
+        await env.settle()
+        t0 = env.now()
+        tasks = []
+        for call in sorted(case["calls"], key=lambda c: c["start"]):
+            wait = call["start"] - (env.now() - t0)
+            if wait > 0:
+                await env.advance(wait)
+            coro = env.hass.services.async_call("pvs", "ov", {"a1": call["a"], "dur": call["dur"]}, blocking=True, return_response=True)
+            tasks.append((call, asyncio.ensure_future(coro)))
+            await env.settle()
+        await env.advance(max(c["start"] + c["dur"] for c in case["calls"]) + 1.0)
+        out = []
+        for call, t in tasks:
+            if not t.done():
+                t.cancel()
+                out.append({"a": call["a"], "k": "pending"})
+                continue
+            try:
+                r = t.result()
+                out.append({"a": call["a"], "k": "ret", "res": r.get("res") if isinstance(r, dict) else None,
+                            "a1": r.get("a1") if isinstance(r, dict) else None})
+            except Exception as exc:  # pylint: disable=broad-except
+                out.append({"a": call["a"], "k": "exc", "exc": type(exc).__name__})
+        fired = sorted([e[2].get("a1"), e[2].get("res"), 0 if e[2].get("tt") == "service" else 1] for e in env.events if e[1] == "pv_ov")
+        return {"calls": out, "fired": fired}
+
+
 _TRACK = None
 
 
@@ -385,11 +445,24 @@ def isolate():
         else:
             o.status = DecoratorManagerStatus.STOPPED
     _TRACK.clear()
+    import gc
+
+    gc.collect()
 
 
 def _main():
+    import gc
+
     req = json.loads(sys.stdin.read())
     track_instances()
+    gc.disable()   # collections happen at fixed points only (collect_garbage), never at allocation-dependent moments
+    import homeassistant.setup  # noqa: F401  pylint: disable=unused-import
+    import pytest_homeassistant_custom_component.common  # noqa: F401  pylint: disable=unused-import
+
+    import custom_components.pyscript  # noqa: F401  pylint: disable=unused-import
+
+    gc.collect()
+    gc.freeze()    # the imported libraries are not garbage: keep them out of every later collection (speed)
     if req["op"] == "life":
         out = []
         for case in req["cases"]:
@@ -399,6 +472,11 @@ def _main():
                 import traceback
 
                 out.append({"error": f"{type(exc).__name__}: {exc}", "tb": traceback.format_exc()[-1500:]})
+            isolate()
+    elif req["op"] == "ov":
+        out = []
+        for case in req["cases"]:
+            out.append(run_virtual(run_overlap(case)))
             isolate()
     else:
         out = run_virtual(run_out(req["cases"]))
